@@ -282,6 +282,9 @@ func c08Alphabet64(bd int, f32 bool) []int64 {
 func c08Run(c *core.Ctx) {
 	var evals, distinct atomic.Int64
 	inst, exh := 0, 0
+	// first use of every instantiation: sequentially, in a fixed order, before anything else converts
+	floatToFixed := func(s, d int) bool { return dyn.Types[s].Kind == dyn.Float && dyn.Types[d].Kind != dyn.Float }
+	digests := ctxDigests(floatToFixed)
 	for _, sd := range instOrder() {
 		{
 			s, d := sd[0], sd[1]
@@ -389,7 +392,7 @@ func c08Run(c *core.Ctx) {
 		td := dyn.Types[d]
 		return c08Oracle(td.Bits, math.Float64frombits(in), rawToAmp(td.Kind, td.Bits, out))
 	}
-	digests := ctxRun(c, "C08", c08Judge, false, func(s, d int) bool { return dyn.Types[s].Kind == dyn.Float && dyn.Types[d].Kind != dyn.Float })
+	ctxPasses(c, "C08", c08Judge, false, floatToFixed)
 	c.Set("ctx_digests", digests)
 	c.Set("evaluations", evals.Load()+c.CtxEvals())
 	c.ReverseOrderPass("mc-shim")
